@@ -67,6 +67,12 @@ type NodeErr struct {
 
 func (e *NodeErr) Unwrap() error { return e.Inner }
 
+// multiErr is an error that wraps several (Unwrap() []error), as errors.Join's result and multierror values do.
+type multiErr struct{ parts []error }
+
+func (m *multiErr) Error() string   { return fmt.Sprintf("%d errors: %v", len(m.parts), m.parts) }
+func (m *multiErr) Unwrap() []error { return m.parts }
+
 func (e *NodeErr) Error() string {
 	return fmt.Sprintf("node-error obj=%s prov=%s seq=%d", e.Obj, e.Prov, e.Seq)
 }
@@ -245,6 +251,13 @@ func (n *RecNode) Process(ctx context.Context, e *eventlogger.Event) (*eventlogg
 			ne.Inner = context.Canceled
 		}
 		err = ne
+		switch rt.Mix(n.behSeed, 63) % 6 {
+		case 0:
+			// a node that reports several things at once: its error is still one error, the one it returned
+			err = errors.Join(ne, fmt.Errorf("second destination failed too (%s)", n.Obj))
+		case 1:
+			err = &multiErr{parts: []error{ne, fmt.Errorf("and another (%s)", n.Obj)}}
+		}
 		if rt.Mix(n.behSeed, 91)%3 == 0 {
 			// a failing node that hands back the event together with its error has failed all the same
 			out = e
